@@ -51,6 +51,69 @@ theorem sem_varRestrict {n A f} (h : Sem n A f) (x : Nat) (b : Bool) :
   rw [h.numVars]
   exact h.evW _
 
+/-! ### valid (level-ordered) operands that need not be canonical -/
+
+/-- `A` is a well-formed operand over `n` variables (`WFo`: what `validate()` guarantees — exact terminals,
+    variables `< n`, links in range, variables strictly increasing along links; duplicates, redundant tests,
+    unreachable nodes and any numbering allowed) and `f` is its function, evaluated by level (`evW`, which is
+    what `Drive.evalArr` / `eval_in` compute) -/
+structure Opnd (n : Nat) (A : Arr) (f : (Nat → Bool) → Bool) : Prop where
+  wfo : WFo A n
+  ev : ∀ v, evW A n v (root A) = f v
+
+theorem Sem.opnd {n A f} (h : Sem n A f) : Opnd n A f := ⟨h.wfo, h.evW⟩
+
+theorem Opnd.dep {n A f} (h : Opnd n A f) : Dep n f := by
+  intro v w hvw
+  rw [← h.ev v, ← h.ev w]
+  exact evW_indep h.wfo n _ (root_lt h.wfo) (by omega) v w (fun i _ hin => hvw i hin)
+
+theorem Opnd.numVars {n A f} (h : Opnd n A f) : numVars A = n := numVars_of_wf h.wfo
+
+/-- `apply_with_flip` (optional flip of the right operand) on two valid operands returns the canonical array
+    of the connective -/
+theorem Opnd.apply {n A B f g} (hA : Opnd n A f) (hB : Opnd n B g) (op : Op2) (c : Bool → Bool → Bool)
+    (hc : Consistent op c) (fr : Option Nat) (hfr : ∀ x, fr = some x → x < n) :
+    Sem n (applyWithFlip A B op none fr none) (fun v => c (f v) (g (inv fr v))) := by
+  refine ⟨?_, ?_⟩
+  · rw [applyWithFlip_eq_canon A B n op c none fr none hA.wfo hB.wfo hA.numVars hc (by simp) hfr (by simp)]
+    apply canon_congr
+    intro v
+    simp only [inv]
+    rw [hA.ev, hB.ev]
+  · intro v w hvw
+    have e1 := hA.dep v w hvw
+    have e2 := dep_inv hB.dep fr v w hvw
+    simp only at e2
+    show c (f v) (g (inv fr v)) = c (f w) (g (inv fr w))
+    rw [e1, e2]
+
+theorem opnd_varForAll {n A f} (h : Opnd n A f) {x : Nat} (hx : x < n) :
+    Sem n (varForAll A x) (fun v => f v && f (inv (some x) v)) :=
+  Opnd.apply h h Gen.and_ _ and_consistent (some x) (by intro y hy; cases hy; exact hx)
+
+theorem opnd_varRestrict {n A f} (h : Opnd n A f) (x : Nat) (b : Bool) :
+    Sem n (varRestrict A x b) (fun v => f (upd v x b)) := by
+  refine ⟨?_, dep_upd h.dep x b⟩
+  unfold varRestrict restrict
+  rw [Rel.restriction_eq_canon h.wfo]
+  apply canon_congr
+  intro v
+  rw [ovr_single]
+  unfold Rel.sem
+  rw [h.numVars]
+  exact h.ev _
+
+theorem Opnd.size_one {n A f} (h : Opnd n A f) (hs : A.size = 1) (v : Nat → Bool) : f v = false := by
+  rw [← h.ev v]
+  have : root A = 0 := by unfold root; omega
+  rw [this]; exact evW_zero A n v
+
+theorem Opnd.size_two {n A f} (h : Opnd n A f) (hs : A.size = 2) (v : Nat → Bool) : f v = true := by
+  rw [← h.ev v]
+  have : root A = 1 := by unfold root; omega
+  rw [this]; exact evW_one A n v
+
 /-! ### "ignores variable `y`" is preserved -/
 
 theorem ind_inv {f : (Nat → Bool) → Bool} {y : Nat} (h : Ind f y) (x : Nat) :
@@ -166,7 +229,7 @@ def RestOk (n : Nat) (f coreF : (Nat → Bool) → Bool) (rem : Arr) : Prop :=
   ∃ g, Sem n rem g ∧ (∀ v, (g v || coreF v) = f v) ∧ (∀ y, Ind f y → Ind g y)
 
 theorem prune_ok {n : Nat} {f coreF : (Nat → Bool) → Bool} {bdd core : Arr}
-    (hb : Sem n bdd f) (hc : Sem n core coreF) :
+    (hb : Opnd n bdd f) (hc : Sem n core coreF) :
     ∀ (vars : List Nat) (rem : Arr), (∀ x ∈ vars, x < n) → RestOk n f coreF rem →
       RestOk n f coreF (pruneRemaining bdd core rem vars) := by
   intro vars
@@ -185,8 +248,8 @@ theorem prune_ok {n : Nat} {f coreF : (Nat → Bool) → Bool} {bdd core : Arr}
       refine ⟨_, hs, ?_, ?_⟩
       · intro v
         have e := eq_of_beq heq
-        have h1 := (hs.or hc).den v
-        rw [e, hb.den v] at h1
+        have h1 := (hs.or hc).evW v
+        rw [e, hb.ev v] at h1
         exact h1.symm
       · intro y hy
         exact ind_comb (fun a b => a || b) (hind y hy) (ind_inv (hind y hy) x)
@@ -216,12 +279,12 @@ theorem not_mem_of_erase {S : List Nat} {x y : Nat} (h : y ∉ S.erase x) (hne :
 theorem optAfterCore_spec {n m : Nat} (card : Arr → Nat)
     {rec : Arr → PVal → List PVal → Outcome (PVal × List PVal)} (hrec : RecOk n rec m)
     {bdd : Arr} {pc : PVal} {res : List PVal} {f : (Nat → Bool) → Bool} {S : List Nat}
-    (hs : Sem n bdd f) (hS : S.length < m + 1) (hSind : ∀ x, x ∉ S → Ind f x)
+    (hs : Opnd n bdd f) (hS : S.length < m + 1) (hSind : ∀ x, x ∉ S → Ind f x)
     (hpc : ∀ y, pc.get y ≠ none → Ind f y)
     (support : List Nat) (s0 : Nat) (h0 : s0 ∈ support)
     (hsup : ∀ y ∈ support, DependsOn f y ∧ y < n) :
     ∃ pc1 R1 rest g, optAfterCore card rec bdd pc res support s0 = .ok (pc1, res ++ R1, rest) ∧
-      (∀ i, pc1.get i = pc.get i) ∧ Sem n rest g ∧ (∀ y, Ind f y → Ind g y) ∧
+      (∀ i, pc1.get i = pc.get i) ∧ Opnd n rest g ∧ (∀ y, Ind f y → Ind g y) ∧
       (∀ v, (dnfFn R1 v || (conjFn pc v && g v)) = (conjFn pc v && f v)) ∧
       (∀ c ∈ R1, ∀ x b, c.get x = some b → x < n ∨ pc.get x = some b) := by
   unfold optAfterCore
@@ -230,7 +293,7 @@ theorem optAfterCore_spec {n m : Nat} (card : Arr → Nat)
     have hx := hsup _ (bestCore_mem card bdd support s0 h0)
     generalize (bestCore card bdd support s0).1 = x at hx
     obtain ⟨hxdep, hxn⟩ := hx
-    have hcore := sem_varForAll hs hxn
+    have hcore := opnd_varForAll hs hxn
     have hxS : x ∈ S := by
       apply Classical.byContradiction
       intro hnot
@@ -253,7 +316,8 @@ theorem optAfterCore_spec {n m : Nat} (card : Arr → Nat)
       (fun y hy => hcoreInd y (hpc y hy))
     rw [hrun]
     simp only
-    have hrem := hs.andNot hcore
+    have hrem : Sem n (bddAndNot bdd (varForAll bdd x)) (fun v => f v && !(f v && f (inv (some x) v))) :=
+      Opnd.apply hs hcore.opnd Gen.and_not_ _ and_not_consistent none (by simp)
     have hsize : ¬ (bddAndNot bdd (varForAll bdd x)).size = 1 := by
       intro h1
       rcases hrem.cases with ⟨_, hfalse⟩ | ⟨hred, _, _⟩
@@ -272,7 +336,7 @@ theorem optAfterCore_spec {n m : Nat} (card : Arr → Nat)
       obtain ⟨p, nd, hp, hnd, hv⟩ := mem_supportSorted hy
       rw [← hv]; exact (hcore.node_dep p nd hp hnd).2
     obtain ⟨g, hg, hor, hgind⟩ := prune_ok hs hcore _ _ hvars hinit
-    refine ⟨pc1, R1, _, g, rfl, hext, hg, hgind, ?_, hr1⟩
+    refine ⟨pc1, R1, _, g, rfl, hext, hg.opnd, hgind, ?_, hr1⟩
     intro v
     rw [hR1 v, ← hor v]
     dsimp only
@@ -284,7 +348,7 @@ theorem optAfterCore_spec {n m : Nat} (card : Arr → Nat)
 theorem optBranch_spec {n m : Nat}
     {rec : Arr → PVal → List PVal → Outcome (PVal × List PVal)} (hrec : RecOk n rec m)
     {rest : Arr} {pc : PVal} {res : List PVal} {f g : (Nat → Bool) → Bool} {S : List Nat}
-    (hg : Sem n rest g) (hgind : ∀ y, Ind f y → Ind g y)
+    (hg : Opnd n rest g) (hgind : ∀ y, Ind f y → Ind g y)
     (hS : S.length < m + 1) (hSind : ∀ x, x ∉ S → Ind f x)
     (hpc : ∀ y, pc.get y ≠ none → Ind f y)
     (support : List Nat) (s0 : Nat) (h0 : s0 ∈ support)
@@ -313,7 +377,7 @@ theorem optBranch_spec {n m : Nat}
     · exact ind_upd_other (hgind y (hSind y (not_mem_of_erase hy hyx))) x c
   -- the `true` branch
   obtain ⟨pc2, R2, hrun2, hext2, hR2, hr2⟩ := hrec (varRestrict rest x true) (pc.set x true) res _ (S.erase x)
-    (sem_varRestrict hg x true) (length_erase_lt hxS hS) (hSer true)
+    (opnd_varRestrict hg x true) (length_erase_lt hxS hS) (hSer true)
     (by
       intro y hy
       rw [get_set] at hy
@@ -331,7 +395,7 @@ theorem optBranch_spec {n m : Nat}
     · rfl
     · rename_i hi; rw [hext2, get_set, if_neg hi]
   obtain ⟨pc3, R3, hrun3, hext3, hR3, hr3⟩ := hrec (varRestrict rest x false) (pc2.set x false) (res ++ R2) _
-    (S.erase x) (sem_varRestrict hg x false) (length_erase_lt hxS hS) (hSer false)
+    (S.erase x) (opnd_varRestrict hg x false) (length_erase_lt hxS hS) (hSer false)
     (by
       intro y hy
       rw [hget2, get_set] at hy
@@ -372,6 +436,55 @@ theorem optBranch_spec {n m : Nat}
         · rename_i hyx; left; rw [hyx]; exact hxn
         · right; exact hy
 
+/-- one call of `_rec` on a VALID operand (not necessarily canonical) all of whose syntactic support variables
+    are variables its function depends on, given that the recursive calls (always on canonical arrays) work -/
+theorem optRec_step {n m : Nat} (card : Arr → Nat) (ih : RecOk n (optRec card m) m)
+    {bdd : Arr} {pc : PVal} {res : List PVal} {f : (Nat → Bool) → Bool} {S : List Nat}
+    (hs : Opnd n bdd f) (hS : S.length < m + 1) (hSind : ∀ x, x ∉ S → Ind f x)
+    (hpc : ∀ y, pc.get y ≠ none → Ind f y)
+    (hmem : ∀ y ∈ supportSorted bdd, DependsOn f y ∧ y < n) :
+    ∃ pc' R, optRec card (m + 1) bdd pc res = .ok (pc', res ++ R) ∧ (∀ i, pc'.get i = pc.get i) ∧
+      (∀ v, dnfFn R v = (conjFn pc v && f v)) ∧
+      (∀ c ∈ R, ∀ x b, c.get x = some b → x < n ∨ pc.get x = some b) := by
+  by_cases h1 : bdd.size = 1
+  · refine ⟨pc, [], ?_, fun _ => rfl, ?_, fun c hc => by cases hc⟩
+    · simp [optRec, h1]
+    · intro v; simp [dnfFn, hs.size_one h1 v]
+  by_cases h2 : bdd.size = 2
+  · refine ⟨pc, [pc], ?_, fun _ => rfl, ?_, ?_⟩
+    · simp [optRec, h2]
+    · intro v; simp [dnfFn, hs.size_two h2 v]
+    · intro c hc x b hg
+      rw [List.mem_singleton] at hc; subst hc
+      right; exact hg
+  · have h3 : 3 ≤ bdd.size := by have := hs.wfo.size_pos; omega
+    rcases hsp : supportSorted bdd with _ | ⟨s0, tl⟩
+    · exact absurd hsp (supportSorted_ne_nil h3)
+    · rw [hsp] at hmem
+      have h0 : s0 ∈ s0 :: tl := List.mem_cons_self ..
+      obtain ⟨pc1, R1, rest, g, hcore, hext1, hg, hgind, hR1, hr1⟩ :=
+        optAfterCore_spec card ih hs hS hSind hpc (s0 :: tl) s0 h0 hmem (res := res)
+      have hpc1 : ∀ y, pc1.get y ≠ none → Ind f y := fun y hy => hpc y (by rw [← hext1]; exact hy)
+      obtain ⟨pc', R, hbr, hext, hR, hr⟩ :=
+        optBranch_spec ih hg hgind hS hSind hpc1 (s0 :: tl) s0 h0 hmem (res := res ++ R1)
+      refine ⟨pc', R1 ++ R, ?_, ?_, ?_, ?_⟩
+      · simp only [optRec, h1, h2, if_false, hsp]
+        rw [hcore]
+        simp only
+        rw [hbr, List.append_assoc]
+      · intro i; rw [hext, hext1]
+      · intro v
+        unfold dnfFn at hR hR1 ⊢
+        rw [List.any_append, hR v, conjFn_congr hext1 v]
+        exact hR1 v
+      · intro c hc x b hgx
+        rw [List.mem_append] at hc
+        rcases hc with hc | hc
+        · exact hr1 c hc x b hgx
+        · rcases hr c hc x b hgx with hx | hx
+          · left; exact hx
+          · right; rw [← hext1]; exact hx
+
 /-- `_rec` with fuel `m` handles every canonical diagram whose function lives on fewer than `m` variables -/
 theorem optRec_ok {n : Nat} (card : Arr → Nat) : ∀ m, RecOk n (optRec card m) m := by
   intro m
@@ -379,54 +492,57 @@ theorem optRec_ok {n : Nat} (card : Arr → Nat) : ∀ m, RecOk n (optRec card m
   | zero => intro _ _ _ _ S _ h; omega
   | succ m ih =>
     intro bdd pc res f S hs hS hSind hpc
-    rcases hs.cases with ⟨e, hfalse⟩ | ⟨hred, _, hev⟩
-    · refine ⟨pc, [], ?_, fun _ => rfl, ?_, fun c hc => by cases hc⟩
-      · rw [e]; simp [optRec, mkFalse]
-      · intro v; simp [dnfFn, hfalse v]
-    have h1 : ¬ bdd.size = 1 := by have := hred.size2; omega
-    by_cases h2 : bdd.size = 2
-    · have htrue : ∀ v, f v = true := by
-        intro v
-        rw [← hev v]
-        unfold root; rw [h2]
-        exact ev_one bdd v
-      refine ⟨pc, [pc], ?_, fun _ => rfl, ?_, ?_⟩
-      · simp [optRec, h2]
-      · intro v; simp [dnfFn, htrue v]
-      · intro c hc x b hg
-        rw [List.mem_singleton] at hc; subst hc
-        right; exact hg
-    · have h3 : 3 ≤ bdd.size := by have := hred.size2; omega
-      have hmem : ∀ y ∈ supportSorted bdd, DependsOn f y ∧ y < n := by
-        intro y hy
-        obtain ⟨p, nd, hp, hnd, hv⟩ := mem_supportSorted hy
-        rw [← hv]; exact hs.node_dep p nd hp hnd
-      rcases hsp : supportSorted bdd with _ | ⟨s0, tl⟩
-      · exact absurd hsp (supportSorted_ne_nil h3)
-      · rw [hsp] at hmem
-        have h0 : s0 ∈ s0 :: tl := List.mem_cons_self ..
-        obtain ⟨pc1, R1, rest, g, hcore, hext1, hg, hgind, hR1, hr1⟩ :=
-          optAfterCore_spec card ih hs hS hSind hpc (s0 :: tl) s0 h0 hmem (res := res)
-        have hpc1 : ∀ y, pc1.get y ≠ none → Ind f y := fun y hy => hpc y (by rw [← hext1]; exact hy)
-        obtain ⟨pc', R, hbr, hext, hR, hr⟩ :=
-          optBranch_spec ih hg hgind hS hSind hpc1 (s0 :: tl) s0 h0 hmem (res := res ++ R1)
-        refine ⟨pc', R1 ++ R, ?_, ?_, ?_, ?_⟩
-        · simp only [optRec, h1, h2, if_false, hsp]
-          rw [hcore]
-          simp only
-          rw [hbr, List.append_assoc]
-        · intro i; rw [hext, hext1]
-        · intro v
-          unfold dnfFn at hR hR1 ⊢
-          rw [List.any_append, hR v, conjFn_congr hext1 v]
-          exact hR1 v
-        · intro c hc x b hgx
-          rw [List.mem_append] at hc
-          rcases hc with hc | hc
-          · exact hr1 c hc x b hgx
-          · rcases hr c hc x b hgx with hx | hx
-            · left; exact hx
-            · right; rw [← hext1]; exact hx
+    apply optRec_step card ih hs.opnd hS hSind hpc
+    intro y hy
+    obtain ⟨p, nd, hp, hnd, hv⟩ := mem_supportSorted hy
+    rw [← hv]; exact hs.node_dep p nd hp hnd
+
+/-- `to_optimized_dnf` of a VALID operand (`WFo`; duplicates, non-post-order numbering … allowed) whose decision
+    nodes — reachable or not — are all labelled by variables the function depends on: no panic, fuel suffices,
+    the clauses are over the variable set and denote the function. (If some node is labelled by a variable the
+    function ignores, the code panics: `toOptimizedDnf_spurious_panics`.) -/
+theorem toOptimizedDnfWith_wfo {n : Nat} (card : Arr → Nat) {b : Arr} {f : (Nat → Bool) → Bool} (hs : Opnd n b f)
+    (hmem : ∀ y ∈ supportSorted b, DependsOn f y) :
+    ∃ cs, toOptimizedDnfWith card b = .ok cs ∧ (∀ c ∈ cs, InRange n c) ∧ ∀ v, dnfFn cs v = f v := by
+  unfold toOptimizedDnfWith
+  by_cases h1 : b.size = 1
+  · refine ⟨[], by simp [h1], (fun c hc => by cases hc), ?_⟩
+    intro v; rw [hs.size_one h1 v]; rfl
+  by_cases h2 : b.size = 2
+  · refine ⟨[[]], by simp [h2], ?_, ?_⟩
+    · intro c hc x bb hg
+      rw [List.mem_singleton] at hc; subst hc
+      rw [get_nil] at hg; cases hg
+    · intro v; rw [hs.size_two h2 v]; rfl
+  · simp only [h1, h2, if_false]
+    have hmem' : ∀ y ∈ supportSorted b, DependsOn f y ∧ y < n := by
+      intro y hy
+      refine ⟨hmem y hy, ?_⟩
+      obtain ⟨p, nd, hp, hnd, hv⟩ := mem_supportSorted hy
+      rw [← hv]; exact (hs.wfo.inner p nd hp hnd).1
+    obtain ⟨pc', R, hrun, _, hR, hr⟩ := optRec_step card (optRec_ok card (n + 1)) (S := List.range n)
+      (pc := []) (res := []) hs
+      (by rw [List.length_range]; omega)
+      (by
+        intro x hx
+        have hxn : n ≤ x := by
+          rcases Nat.lt_or_ge x n with h | h
+          · exact absurd (List.mem_range.2 h) hx
+          · exact h
+        intro v bb
+        apply hs.dep
+        intro i hi
+        have : i ≠ x := by omega
+        simp [upd, this])
+      (by intro y hy; rw [get_nil] at hy; exact absurd rfl hy) hmem'
+    rw [hs.numVars, hrun]
+    simp only [List.nil_append]
+    refine ⟨R, rfl, ?_, ?_⟩
+    · intro c hc x bb hg
+      rcases hr c hc x bb hg with hx | hx
+      · exact hx
+      · rw [get_nil] at hx; cases hx
+    · intro v; rw [hR v, conjFn_nil]; rfl
 
 /-- `to_optimized_dnf` of a canonical array (for ANY cardinality function steering the greedy choice): it
     returns a clause list over the variable set that denotes the function of the array -/
